@@ -118,7 +118,7 @@ func main() {
 	}
 
 	thorough := a.Thorough()
-	n := map[string]int{"window": 10, "prog": 44, "wait": 8, "crash": 10, "fault": 14, "openfail": 4}
+	n := map[string]int{"window": 16, "prog": 96, "wait": 12, "crash": 20, "fault": 36, "openfail": 6}
 	nops, kTxnCap, kTraceCap := 170, 48, 24
 	if thorough {
 		n = map[string]int{"window": 150, "prog": 2000, "wait": 60, "crash": 250, "fault": 160, "openfail": 40}
@@ -135,6 +135,7 @@ func main() {
 
 	var vmu sync.Mutex
 	nKnown := 0
+	knownSeen := map[string]bool{}
 	record := func(j job, c Case, o caseOut) {
 		fail, stats, nontrivial, kcases := o.fail, o.stats, o.nontrivial, o.kcases
 		for k, v := range stats {
@@ -182,14 +183,15 @@ func main() {
 		if o.known != "" {
 			// an instance of a recorded, unrepaired defect: reported once, as a known finding
 			res.Count("known_finding_"+o.known, 1)
-			if nKnown == 0 {
+			if !knownSeen[o.known] {
+				knownSeen[o.known] = true
 				res.Violate(c.Kind+": "+fail, c)
 				res.Violations[len(res.Violations)-1].Known = o.known
+				nKnown++
 			}
-			nKnown++
 			return
 		}
-		if res.NViolations() >= 6+nKnown {
+		if res.NViolations() >= 4+nKnown {
 			return
 		}
 		if c.Kind == "prog" {
@@ -202,7 +204,7 @@ func main() {
 				return false
 			}
 			if !strings.Contains(fail, "HANG") {
-				q := dbh.Shrink(c.Prog, fails, 20*time.Second)
+				q := dbh.Shrink(c.Prog, fails, 8*time.Second)
 				if o := runProgram(q, nil); o.fail != "" {
 					c.Prog, fail = q, fmt.Sprintf("%s [%d ops after shrinking]", o.fail, len(q.Ops))
 				}
@@ -242,8 +244,14 @@ func main() {
 	// phase 2: everything else in parallel; slow scenario kinds first
 	var jobs []job
 	for _, kind := range []string{"fault", "crash", "openfail", "wait", "prog"} {
+		off := root.Intn(36)
 		for i := 0; i < n[kind]; i++ {
-			jobs = append(jobs, job{kind, i, root.Uint64()})
+			sd := root.Uint64()
+			if kind == "fault" {
+				// consecutive residues modulo 36 walk through all (fault kind, via, afterwards) combinations
+				sd = sd - sd%36 + uint64((off+i)%36)
+			}
+			jobs = append(jobs, job{kind, i, sd})
 		}
 	}
 	ch := make(chan job)
@@ -258,7 +266,12 @@ func main() {
 				if j.kind == "prog" && j.i%2 == 0 {
 					kr = vlib.NewRNG(j.seed ^ 0x5bd1e995)
 				}
-				record(j, c, runCase(c, kr))
+				t0 := time.Now()
+				o := runCase(c, kr)
+				if os.Getenv("C11_DEBUG") != "" {
+					fmt.Printf("job %s-%d seed %d took %v fail=%q\n", j.kind, j.i, j.seed, time.Since(t0), o.fail)
+				}
+				record(j, c, o)
 			}
 		}()
 	}
